@@ -1,46 +1,1085 @@
 package main
 
+// Concurrency: every model thread is executed symbolically on its own; operations on synchronisation objects
+// become EVENTS (with an integer clock variable) instead of effects, reads of shared cells return fresh symbolic
+// values. The SMT encoding (partial-order BMC) relates the clocks: program order, spawn order, read-from for
+// sequentially consistent atomics, mutual exclusion, wait-group / cond-var / channel / context wake-up conditions.
+// One query then covers ALL interleavings of the bounded configuration.
+
 import (
+	"fmt"
 	"go/types"
+	"os"
+	"path/filepath"
+	"sort"
+	"strings"
+	"time"
 
 	"golang.org/x/tools/go/ssa"
 )
 
-// placeholder; filled in by conc_*.go
-type ConcCtx struct {
-	cur *ThreadRec
+type Event struct {
+	ID     int
+	Thread int
+	Kind   string
+	Loc    string
+	Guard  *Term
+	Read   *Term // fresh value read (load / rmw / recv-ok ...)
+	Write  *Term // value written (store / rmw)
+	Val    *Term // auxiliary (wait-group delta, select choice ...)
+	Pair   *Event
+	Name   string
+	Clk    *Term
+	Site   string
+	Aux    []*Event
 }
-type ThreadRec struct{ id int }
-type ThreadCtx struct{}
 
-func (t *ThreadCtx) clone() *ThreadCtx { return &ThreadCtx{} }
-func mergeThreads(a, b *ThreadCtx, ca, cb *Term) (*ThreadCtx, bool) { return a, true }
+type ThreadRec struct {
+	id      int
+	name    string
+	spawnEv *Event
+	guard   *Term
+	fn      Value
+	args    []Value
+	snap    *State
+	finals  []*Term // path conditions of the terminal (returned) states
+	panics  []*Term
+	all     map[int]*Event
+	site    string
+	truncated bool
+}
 
-func (c *ConcCtx) sideConstraints() []*Term { return nil }
+type ThreadCtx struct {
+	rec    *ThreadRec
+	events []*Event
+	held   map[string][]*Event
+}
+
+func (t *ThreadCtx) clone() *ThreadCtx {
+	n := &ThreadCtx{rec: t.rec, events: append([]*Event(nil), t.events...), held: map[string][]*Event{}}
+	for k, v := range t.held {
+		n.held[k] = append([]*Event(nil), v...)
+	}
+	return n
+}
+
+// mergeThreads: common prefix of events is shared; the tails are concatenated (each event carries its own
+// absolute guard, so no re-guarding is needed).
+func mergeThreads(a, b *ThreadCtx, ca, cb *Term) (*ThreadCtx, bool) {
+	if a.rec != b.rec {
+		return nil, false
+	}
+	i := 0
+	for i < len(a.events) && i < len(b.events) && a.events[i] == b.events[i] {
+		i++
+	}
+	n := &ThreadCtx{rec: a.rec, held: map[string][]*Event{}}
+	n.events = append(n.events, a.events...)
+	n.events = append(n.events, b.events[i:]...)
+	// held locks must agree (same lock events); otherwise refuse the merge
+	if len(a.held) != len(b.held) {
+		// allow when both have only empty stacks
+	}
+	keys := map[string]bool{}
+	for k := range a.held {
+		keys[k] = true
+	}
+	for k := range b.held {
+		keys[k] = true
+	}
+	for k := range keys {
+		x, y := a.held[k], b.held[k]
+		if len(x) != len(y) {
+			return nil, false
+		}
+		for j := range x {
+			if x[j] != y[j] {
+				return nil, false
+			}
+		}
+		n.held[k] = append([]*Event(nil), x...)
+	}
+	return n, true
+}
+
+type chanInfo struct {
+	id   int
+	cap  int
+	kind string // "", "ticker", "timer", "done"
+	ctx  Ptr
+	aux  *Term // ticker period / timer delay
+}
+
+type ConcCtx struct {
+	e        *Exec
+	cur      *ThreadRec
+	threads  []*ThreadRec
+	queue    []*ThreadRec
+	events   []*Event
+	chans    map[int]*chanInfo
+	inits    map[string]*Term // initial value per atomic location
+	sorts    map[string]Sort
+	phi      []*Term
+	built    bool
+	named    map[string]*Event
+	place    map[string]*Term // placeholder vars referenced by harness assertions
+	maxThreads int
+	timeline []*Event
+	doneChains map[int][]int
+}
+
+func newConc(e *Exec) *ConcCtx {
+	return &ConcCtx{e: e, chans: map[int]*chanInfo{}, inits: map[string]*Term{}, sorts: map[string]Sort{}, named: map[string]*Event{}, place: map[string]*Term{}, maxThreads: 24, doneChains: map[int][]int{}}
+}
+
+func locKey(p Ptr) string { return fmt.Sprintf("%d%s", p.Obj, p.Path) }
+
+func (c *ConcCtx) emit(st *State, kind, loc, site string) *Event {
+	ev := &Event{ID: len(c.events), Thread: st.Thread.rec.id, Kind: kind, Loc: loc, Guard: st.PCTerm(), Site: site}
+	ev.Clk = Var(fmt.Sprintf("clk!%d", ev.ID), IntSort)
+	c.events = append(c.events, ev)
+	st.Thread.events = append(st.Thread.events, ev)
+	st.Thread.rec.all[ev.ID] = ev
+	if len(c.events) > 4000 {
+		fail("too many concurrency events")
+	}
+	return ev
+}
+
+// ---------- running threads ----------
+
+func (c *ConcCtx) runMain(e *Exec, st *State, fn *ssa.Function) {
+	main := &ThreadRec{id: 0, name: "main", guard: True, fn: &Func{Fn: fn}, snap: st, all: map[int]*Event{}}
+	c.threads = append(c.threads, main)
+	c.queue = append(c.queue, main)
+	for len(c.queue) > 0 {
+		t := c.queue[0]
+		c.queue = c.queue[1:]
+		c.runThread(e, t)
+	}
+	c.cur = nil
+}
+
+func (c *ConcCtx) runThread(e *Exec, t *ThreadRec) {
+	c.cur = t
+	st := t.snap
+	st.Frames = nil
+	st.Panicking = nil
+	st.Thread = &ThreadCtx{rec: t, held: map[string][]*Event{}}
+	if t.id != 0 {
+		// thread-local path condition starts from the spawn guard
+		st.PC = []*Term{t.guard}
+		first := c.emit(st, "start", "", t.site)
+		first.Pair = t.spawnEv
+	}
+	outs := e.callValue(st, t.fn, t.args, false, "thread "+t.name)
+	for _, o := range outs {
+		switch o.kind {
+		case oReturn:
+			end := c.emit(o.st, "end", "", "")
+			_ = end
+			t.finals = append(t.finals, o.st.PCTerm())
+		case oPanic:
+			t.panics = append(t.panics, o.st.PCTerm())
+			pi := o.st.Panicking
+			e.addOblig(&Obligation{ID: fmt.Sprintf("%s.nopanic.thread_%s", e.harness, t.name), Kind: "nopanic", PC: o.st.PCTerm(), Cond: False, Site: pi.Site, Detail: pi.Desc})
+		}
+	}
+	e.paths += len(outs)
+}
+
+func (c *ConcCtx) spawn(e *Exec, st *State, ct callTarget, site string) {
+	if ct.nilp {
+		fail("go of nil function")
+	}
+	if len(c.threads) >= c.maxThreads {
+		fail("too many model threads")
+	}
+	ev := c.emit(st, "spawn", "", site)
+	snap := st.Clone()
+	name := fmt.Sprintf("T%d", len(c.threads))
+	if f, ok := ct.fn.(*Func); ok && f.Fn != nil {
+		name += ":" + f.Fn.Name()
+	}
+	t := &ThreadRec{id: len(c.threads), name: name, spawnEv: ev, guard: st.PCTerm(), fn: ct.fn, args: ct.args, snap: snap, all: map[int]*Event{}, site: site}
+	c.threads = append(c.threads, t)
+	c.queue = append(c.queue, t)
+}
+
+// ---------- atomics ----------
+
+func (c *ConcCtx) atomicOp(e *Exec, st *State, cell Ptr, method string, args []Value, toCell, fromCell func(Value) Value, site string) []Outcome {
+	loc := "a:" + locKey(cell)
+	if _, ok := c.inits[loc]; !ok {
+		iv := e.load(st, cell).(*Term)
+		c.inits[loc] = iv
+		c.sorts[loc] = iv.Sort
+	}
+	s := c.sorts[loc]
+	switch method {
+	case "Load":
+		ev := c.emit(st, "load", loc, site)
+		ev.Read = e.fresh("rd", s)
+		return ret(st, fromCell(ev.Read))
+	case "Store":
+		ev := c.emit(st, "store", loc, site)
+		ev.Write = toCell(args[0]).(*Term)
+		return ret(st)
+	case "Add":
+		ev := c.emit(st, "rmw", loc, site)
+		ev.Read = e.fresh("rd", s)
+		ev.Write = BVBin("bvadd", ev.Read, args[0].(*Term))
+		return ret(st, ev.Write)
+	case "Swap":
+		ev := c.emit(st, "rmw", loc, site)
+		ev.Read = e.fresh("rd", s)
+		ev.Write = toCell(args[0]).(*Term)
+		return ret(st, fromCell(ev.Read))
+	case "CompareAndSwap":
+		ev := c.emit(st, "rmw", loc, site)
+		ev.Read = e.fresh("rd", s)
+		ok := Eq(ev.Read, toCell(args[0]).(*Term))
+		ev.Write = Ite(ok, toCell(args[1]).(*Term), ev.Read)
+		return ret(st, ok)
+	}
+	fail("atomic %s unsupported in concurrent mode", method)
+	return nil
+}
+
+// ---------- mutexes ----------
+
+func (c *ConcCtx) mutexOp(e *Exec, st *State, p Ptr, rw bool, method, site string) []Outcome {
+	loc := "m:" + locKey(p)
+	th := st.Thread
+	switch method {
+	case "Lock", "RLock":
+		kind := "lock"
+		if method == "RLock" {
+			kind = "rlock"
+		}
+		ev := c.emit(st, kind, loc, site)
+		th.held[loc+kind] = append(th.held[loc+kind], ev)
+	case "Unlock", "RUnlock":
+		kind, lk := "unlock", "lock"
+		if method == "RUnlock" {
+			kind, lk = "runlock", "rlock"
+		}
+		stack := th.held[loc+lk]
+		if len(stack) == 0 {
+			// unlock of a mutex locked by another thread (legal in Go, unusual): treat as error in the model
+			return e.panicOut(st, e.runtimeError("sync: unlock of unlocked mutex (model: not locked by this thread)"), "unlock of unlocked mutex", site)
+		}
+		ev := c.emit(st, kind, loc, site)
+		ev.Pair = stack[len(stack)-1]
+		stack[len(stack)-1].Pair = ev
+		th.held[loc+lk] = stack[:len(stack)-1]
+	default:
+		fail("mutex method %s unsupported in concurrent mode", method)
+	}
+	return ret(st)
+}
+
+// ---------- WaitGroup / Cond ----------
+
+func (c *ConcCtx) syncMisc(e *Exec, st *State, fn *Func, name string, args []Value, site string) []Outcome {
+	switch name {
+	case "sync.NewCond":
+		ct := fn.Fn.Signature.Results().At(0).Type().(*types.Pointer).Elem()
+		id := e.newObj(st, e.zero(ct))
+		cs := ct.Underlying().(*types.Struct)
+		for i := 0; i < cs.NumFields(); i++ {
+			if cs.Field(i).Name() == "L" {
+				e.store(st, Ptr{Obj: id, Path: pathAppend("", i)}, args[0])
+			}
+		}
+		return ret(st, Ptr{Obj: id})
+	case "(*sync.WaitGroup).Add":
+		ev := c.emit(st, "wgadd", "w:"+locKey(args[0].(Ptr)), site)
+		ev.Val = args[1].(*Term)
+		return ret(st)
+	case "(*sync.WaitGroup).Done":
+		ev := c.emit(st, "wgadd", "w:"+locKey(args[0].(Ptr)), site)
+		ev.Val = BVConst(^uint64(0), 64)
+		return ret(st)
+	case "(*sync.WaitGroup).Wait":
+		c.emit(st, "wgwait", "w:"+locKey(args[0].(Ptr)), site)
+		return ret(st)
+	case "(*sync.Cond).Broadcast", "(*sync.Cond).Signal":
+		c.emit(st, "broadcast", "c:"+locKey(args[0].(Ptr)), site)
+		return ret(st)
+	case "(*sync.Cond).Wait":
+		cp := args[0].(Ptr)
+		// find L
+		ct := fn.Fn.Signature.Recv().Type().(*types.Pointer).Elem().Underlying().(*types.Struct)
+		var lk Value
+		for i := 0; i < ct.NumFields(); i++ {
+			if ct.Field(i).Name() == "L" {
+				lk = e.load(st, Ptr{Obj: cp.Obj, Path: pathAppend(cp.Path, i)})
+			}
+		}
+		liv, ok := lk.(Iface)
+		if !ok || liv.T == nil {
+			fail("Cond.Wait with nil Locker")
+		}
+		mp := liv.V.(Ptr)
+		// unlock . park . wake . lock
+		if outs := c.mutexOp(e, st, mp, false, "Unlock", site); outs[0].kind == oPanic {
+			return outs
+		}
+		park := st.Thread.events[len(st.Thread.events)-1]
+		wake := c.emit(st, "condwake", "c:"+locKey(cp), site)
+		wake.Pair = park
+		c.mutexOp(e, st, mp, false, "Lock", site)
+		return ret(st)
+	}
+	fail("%s unsupported in concurrent mode", name)
+	return nil
+}
+
+// ---------- channels ----------
+
+func (c *ConcCtx) makeChan(id, size int) {
+	c.chans[id] = &chanInfo{id: id, cap: size}
+}
+
+func (c *ConcCtx) chanOf(ch ChanRef) *chanInfo {
+	if ch.Obj == 0 {
+		return nil
+	}
+	ci, ok := c.chans[ch.Obj]
+	if !ok {
+		ci = &chanInfo{id: ch.Obj}
+		c.chans[ch.Obj] = ci
+	}
+	return ci
+}
+
+func (c *ConcCtx) closeChan(e *Exec, st *State, ch ChanRef, site string) []Outcome {
+	if ch.Obj == 0 {
+		return e.panicOut(st, e.runtimeError("close of nil channel"), "close of nil channel", site)
+	}
+	c.emit(st, "close", fmt.Sprintf("ch:%d", ch.Obj), site)
+	return ret(st)
+}
+
+func (c *ConcCtx) send(e *Exec, st *State, fr *Frame, x *ssa.Send, site string) []*State {
+	ch := e.eval(st, fr, x.Chan).(ChanRef)
+	if ch.Obj == 0 {
+		fail("send on nil channel blocks forever")
+	}
+	ev := c.emit(st, "send", fmt.Sprintf("ch:%d", ch.Obj), site)
+	if v, ok := e.eval(st, fr, x.X).(*Term); ok {
+		ev.Write = v
+	}
+	return []*State{st}
+}
+
+// recvEvent emits the event for a receive on ch and returns the received value.
+func (c *ConcCtx) recvEvent(e *Exec, st *State, ch ChanRef, elem types.Type, site string) (Value, *Term) {
+	if ch.Obj == 0 {
+		// nil channel: blocks forever; the path ends here (recorded as blocked)
+		ev := c.emit(st, "block", "", site)
+		_ = ev
+		st.Assume(False)
+		return e.zero(elem), False
+	}
+	ci := c.chanOf(ch)
+	ev := c.emit(st, "recv", fmt.Sprintf("ch:%d", ch.Obj), site)
+	ev.Name = ci.kind
+	okv := e.fresh("recvok", BoolSort)
+	ev.Read = okv
+	val := e.zero(elem)
+	if t, ok := val.(*Term); ok && ci.kind == "" {
+		// data value of a matched send (only scalar payloads are tracked)
+		ev.Val = e.fresh("recvval", t.Sort)
+		val = Ite(okv, ev.Val, t)
+	}
+	if ci.kind == "ticker" || ci.kind == "timer" {
+		// payload: the tick's time stamp (arbitrary non-decreasing instant)
+		val = timeVal(True, e.clockRead(st, "wall"))
+	}
+	return val, okv
+}
+
+func (c *ConcCtx) recv(e *Exec, st *State, fr *Frame, x *ssa.UnOp, site string) []*State {
+	ch := e.eval(st, fr, x.X).(ChanRef)
+	elem := x.X.Type().Underlying().(*types.Chan).Elem()
+	val, ok := c.recvEvent(e, st, ch, elem, site)
+	if st.PCTerm().IsFalse() {
+		return nil
+	}
+	if x.CommaOk {
+		fr.Env[x] = &Struct{[]Value{val, ok}}
+	} else {
+		fr.Env[x] = val
+	}
+	return []*State{st}
+}
+
+func (c *ConcCtx) selectOp(e *Exec, st *State, fr *Frame, x *ssa.Select, site string) []*State {
+	// result tuple: (index int, recvOk bool, r_0 T_0, ... for each receive case)
+	n := len(x.States)
+	if fr.Visits == nil {
+		fr.Visits = map[int]int{}
+	}
+	key := -1 - x.Block().Index
+	fr.Visits[key]++
+	if fr.Visits[key] > e.unroll {
+		e.issues = append(e.issues, Issue{"bound", fmt.Sprintf("select at %s executed more than %d times on one path: longer executions are outside the bound", site, e.unroll)})
+		return nil
+	}
+	choice := e.fresh("select", BV(64))
+	var outs []*State
+	total := n
+	if !x.Blocking {
+		total = n + 1
+	}
+	for i := 0; i < total; i++ {
+		s := st
+		if i < total-1 {
+			s = st.Clone()
+		}
+		s.Assume(Eq(choice, BVConst(uint64(i), 64)))
+		sfr := s.Top()
+		idx := i
+		if i == n {
+			idx = -1 // default case
+		}
+		vals := []Value{BVConst(uint64(int64(idx)), 64), False}
+		var rok *Term = False
+		for j, cs := range x.States {
+			if cs.Dir == types.RecvOnly {
+				elem := cs.Chan.Type().Underlying().(*types.Chan).Elem()
+				if j == i {
+					ch := e.eval(s, sfr, cs.Chan).(ChanRef)
+					v, ok := c.recvEvent(e, s, ch, elem, site)
+					rok = ok
+					vals = append(vals, v)
+				} else {
+					vals = append(vals, e.zero(elem))
+				}
+			} else if j == i {
+				ch := e.eval(s, sfr, cs.Chan).(ChanRef)
+				ev := c.emit(s, "send", fmt.Sprintf("ch:%d", ch.Obj), site)
+				if v, ok := e.eval(s, sfr, cs.Send).(*Term); ok {
+					ev.Write = v
+				}
+			}
+		}
+		if i == n {
+			// default: allowed only when no case is ready -- modelled conservatively as always allowed
+			c.emit(s, "selectdefault", "", site)
+		}
+		if s.PCTerm().IsFalse() {
+			continue
+		}
+		vals[1] = rok
+		sfr.Env[x] = &Struct{vals}
+		outs = append(outs, s)
+	}
+	e.forks += len(outs) - 1
+	return outs
+}
+
+// ---------- contexts ----------
+
+func (c *ConcCtx) ctxCancel(e *Exec, st *State, p Ptr, site string) []Outcome {
+	c.emit(st, "cancel", fmt.Sprintf("ctx:%d", p.Obj), site)
+	return ret(st)
+}
+
+func (c *ConcCtx) registerDeadline(e *Exec, st *State, p Ptr, d *Term) {
+	// the deadline is an environment action that may fire at any time after creation
+	ev := c.emit(st, "mkdeadline", fmt.Sprintf("ctx:%d", p.Obj), "")
+	ev.Val = d
+}
+
+// ctxChain returns the ctx object ids of ctx and its cancellable ancestors
+func (c *ConcCtx) ctxChain(e *Exec, st *State, ctx Value) []int {
+	var out []int
+	for depth := 0; depth < 10; depth++ {
+		iv, ok := ctx.(Iface)
+		if !ok || iv.T == nil || !types.Identical(iv.T, e.ctxType()) {
+			break
+		}
+		p := iv.V.(Ptr)
+		out = append(out, p.Obj)
+		ctx = e.objContent(st, p.Obj).(*Struct).F[cxParent]
+	}
+	return out
+}
+
+func (c *ConcCtx) ctxErr(e *Exec, st *State, ctx Value, site string) []Outcome {
+	chain := c.ctxChain(e, st, ctx)
+	if len(chain) == 0 {
+		return ret(st, Iface{})
+	}
+	ev := c.emit(st, "ctxerr", "ctxs:"+joinInts(chain), site)
+	ev.Read = e.fresh("cancelled", BoolSort)
+	// fork on the symbolic answer (interface values of different dynamic types cannot be merged)
+	s2 := st.Clone()
+	st.Assume(ev.Read)
+	s2.Assume(Not(ev.Read))
+	cp := e.prog.ImportedPackage("context")
+	canc := e.load(st, Ptr{Obj: e.globalObj(cp.Var("Canceled"))})
+	return []Outcome{{st: st, kind: oReturn, vals: []Value{canc}}, {st: s2, kind: oReturn, vals: []Value{Iface{}}}}
+}
+
+func joinInts(xs []int) string {
+	var parts []string
+	for _, x := range xs {
+		parts = append(parts, fmt.Sprint(x))
+	}
+	return strings.Join(parts, ",")
+}
+
+// Done() channel of a context: a channel of kind "done" bound to the ctx chain
+func (c *ConcCtx) doneChan(e *Exec, st *State, ctxPtr Ptr) ChanRef {
+	obj := e.objContent(st, ctxPtr.Obj).(*Struct)
+	ch := obj.F[cxDone].(ChanRef)
+	ci := c.chanOf(ch)
+	ci.kind = "done"
+	ci.ctx = ctxPtr
+	c.doneChains[ch.Obj] = c.ctxChain(e, st, Iface{T: e.ctxType(), V: ctxPtr})
+	return ch
+}
+
+// ---------- shared plain memory (not modelled; threads inherit the spawner's heap snapshot) ----------
+
 func (c *ConcCtx) sharedStore(e *Exec, st *State, p Ptr, v Value, site string) bool { return false }
 func (c *ConcCtx) sharedLoad(e *Exec, st *State, p Ptr, t types.Type, site string) (Value, bool) {
 	return nil, false
 }
-func (c *ConcCtx) makeChan(id, size int) {}
-func (c *ConcCtx) spawn(e *Exec, st *State, ct callTarget, site string) {}
-func (c *ConcCtx) send(e *Exec, st *State, fr *Frame, x *ssa.Send, site string) []*State { return nil }
-func (c *ConcCtx) selectOp(e *Exec, st *State, fr *Frame, x *ssa.Select, site string) []*State {
-	return nil
-}
-func (c *ConcCtx) recv(e *Exec, st *State, fr *Frame, x *ssa.UnOp, site string) []*State { return nil }
-func (c *ConcCtx) closeChan(e *Exec, st *State, ch ChanRef, site string) []Outcome { return nil }
-func (c *ConcCtx) atomicOp(e *Exec, st *State, cell Ptr, method string, args []Value, toCell, fromCell func(Value) Value, site string) []Outcome {
-	return nil
-}
-func (c *ConcCtx) mutexOp(e *Exec, st *State, p Ptr, rw bool, method, site string) []Outcome { return nil }
-func (c *ConcCtx) syncMisc(e *Exec, st *State, fn *Func, name string, args []Value, site string) []Outcome {
-	return nil
+
+// ---------- encoding ----------
+
+func lt(a, b *Term) *Term { return App("<", BoolSort, a, b) }
+
+func (c *ConcCtx) sideConstraints() []*Term {
+	if !c.built {
+		return nil
+	}
+	return c.phi
 }
 
-func newConc(e *Exec) *ConcCtx { return &ConcCtx{} }
-func (c *ConcCtx) runMain(e *Exec, st *State, fn *ssa.Function) { fail("concurrency mode not built yet") }
-func (c *ConcCtx) finish(e *Exec, res *HarnessResult) {}
+func (c *ConcCtx) finish(e *Exec, res *HarnessResult) {
+	c.build(e)
+	res.Events = len(c.events)
+	res.Threads = len(c.threads)
+	res.Bounds["threads"] = fmt.Sprint(len(c.threads))
+	res.Bounds["events"] = fmt.Sprint(len(c.events))
+}
 
-func (c *ConcCtx) registerDeadline(e *Exec, st *State, p Ptr, d *Term) {}
-func (c *ConcCtx) ctxCancel(e *Exec, st *State, p Ptr, site string) []Outcome { return ret(st) }
-func (c *ConcCtx) ctxErr(e *Exec, st *State, ctx Value, site string) []Outcome   { return ret(st, Iface{}) }
+func (c *ConcCtx) build(e *Exec) {
+	var phi []*Term
+	add := func(t *Term) {
+		if !t.IsTrue() {
+			phi = append(phi, t)
+		}
+	}
+	// 1. program order inside each thread (chain along each terminal event list = union: we use creation order per thread)
+	byThread := map[int][]*Event{}
+	for _, ev := range c.events {
+		byThread[ev.Thread] = append(byThread[ev.Thread], ev)
+	}
+	// creation order within a thread is consistent with program order on every path (events of different
+	// paths are never both executed), so a single chain per thread suffices
+	for _, evs := range byThread {
+		for i := 1; i < len(evs); i++ {
+			add(lt(evs[i-1].Clk, evs[i].Clk))
+		}
+	}
+	// 2. spawn before start; thread completion
+	for _, t := range c.threads {
+		if t.spawnEv != nil {
+			first := byThread[t.id][0]
+			add(lt(t.spawnEv.Clk, first.Clk))
+		}
+		// every spawned thread runs to completion along one of its paths (quiescent executions)
+		if len(t.finals) == 0 {
+			add(Not(t.guard)) // the thread can never finish within the bounds: executions spawning it are excluded
+			e.issues = append(e.issues, Issue{"bound", fmt.Sprintf("thread %s has no completing path within the unroll bound", t.name)})
+		} else {
+			add(Implies(t.guard, Or(t.finals...)))
+		}
+	}
+	// group events by location
+	byLoc := map[string][]*Event{}
+	for _, ev := range c.events {
+		if ev.Loc != "" {
+			byLoc[ev.Loc] = append(byLoc[ev.Loc], ev)
+		}
+	}
+	locs := make([]string, 0, len(byLoc))
+	for l := range byLoc {
+		locs = append(locs, l)
+	}
+	sort.Strings(locs)
+	for _, loc := range locs {
+		evs := byLoc[loc]
+		switch loc[0] {
+		case 'a':
+			c.encodeAtomic(loc, evs, add)
+		case 'm':
+			c.encodeMutex(evs, add)
+		case 'w':
+			c.encodeWaitGroup(evs, add)
+		}
+	}
+	c.encodeCond(byLoc, add)
+	c.encodeChans(e, byLoc, add)
+	c.encodeCtx(e, byLoc, add)
+	// named ghost events -> placeholders
+	for name, v := range c.place {
+		parts := strings.SplitN(name, "@", 2)
+		ev := c.named[parts[1]]
+		if ev == nil && strings.HasSuffix(parts[1], "[0]") {
+			ev = c.named[strings.TrimSuffix(parts[1], "[0]")]
+		}
+		var alts []*Event
+		if ev != nil {
+			alts = append(append(alts, ev.Aux...), ev)
+		}
+		switch parts[0] {
+		case "clk":
+			for _, a := range alts {
+				add(Implies(a.Guard, Eq(v, a.Clk)))
+			}
+		case "exec":
+			var gs []*Term
+			for _, a := range alts {
+				gs = append(gs, a.Guard)
+			}
+			add(Eq(v, Or(gs...)))
+		}
+	}
+	c.phi = phi
+	c.built = true
+}
+
+func (c *ConcCtx) encodeAtomic(loc string, evs []*Event, add func(*Term)) {
+	init := c.inits[loc]
+	var writes, reads []*Event
+	for _, ev := range evs {
+		if ev.Write != nil {
+			writes = append(writes, ev)
+		}
+		if ev.Read != nil {
+			reads = append(reads, ev)
+		}
+	}
+	// distinct clocks among conflicting accesses (writes vs everything)
+	for i, w := range writes {
+		for _, o := range evs {
+			if o == w {
+				continue
+			}
+			if o.Write != nil && o.ID < w.ID {
+				continue // pair handled once
+			}
+			_ = i
+			if o.Thread == w.Thread {
+				continue
+			}
+			add(Not(Eq(w.Clk, o.Clk)))
+		}
+	}
+	for _, r := range reads {
+		var opts []*Term
+		// read from init: no executed write before r
+		var none []*Term
+		for _, w := range writes {
+			if w == r {
+				continue
+			}
+			none = append(none, Or(Not(w.Guard), lt(r.Clk, w.Clk)))
+		}
+		opts = append(opts, And(append(none, Eq(r.Read, init))...))
+		for _, w := range writes {
+			if w == r {
+				continue
+			}
+			conj := []*Term{w.Guard, lt(w.Clk, r.Clk), Eq(r.Read, w.Write)}
+			for _, w2 := range writes {
+				if w2 == w || w2 == r {
+					continue
+				}
+				conj = append(conj, Or(Not(w2.Guard), lt(w2.Clk, w.Clk), lt(r.Clk, w2.Clk)))
+			}
+			opts = append(opts, And(conj...))
+		}
+		add(Implies(r.Guard, Or(opts...)))
+	}
+}
+
+type section struct {
+	lock, unlock *Event
+	reader       bool
+}
+
+func (c *ConcCtx) encodeMutex(evs []*Event, add func(*Term)) {
+	var secs []section
+	for _, ev := range evs {
+		if ev.Kind == "lock" || ev.Kind == "rlock" {
+			secs = append(secs, section{lock: ev, unlock: ev.Pair, reader: ev.Kind == "rlock"})
+		}
+	}
+	for i := 0; i < len(secs); i++ {
+		for j := i + 1; j < len(secs); j++ {
+			a, b := secs[i], secs[j]
+			if a.reader && b.reader {
+				continue
+			}
+			if a.lock.Thread == b.lock.Thread {
+				continue // ordered by program order (self-deadlock is checked by the deadlock query)
+			}
+			both := And(a.lock.Guard, b.lock.Guard)
+			var aBeforeB, bBeforeA *Term
+			if a.unlock != nil {
+				aBeforeB = And(a.unlock.Guard, lt(a.unlock.Clk, b.lock.Clk))
+			} else {
+				aBeforeB = False
+			}
+			if b.unlock != nil {
+				bBeforeA = And(b.unlock.Guard, lt(b.unlock.Clk, a.lock.Clk))
+			} else {
+				bBeforeA = False
+			}
+			add(Implies(both, Or(aBeforeB, bBeforeA)))
+		}
+	}
+}
+
+func (c *ConcCtx) encodeWaitGroup(evs []*Event, add func(*Term)) {
+	var adds, waits []*Event
+	for _, ev := range evs {
+		if ev.Kind == "wgadd" {
+			adds = append(adds, ev)
+		} else if ev.Kind == "wgwait" {
+			waits = append(waits, ev)
+		}
+	}
+	for _, w := range waits {
+		var sum *Term = IntConst(0)
+		for _, a := range adds {
+			d := a.Val
+			var di *Term
+			if d.IsConst() {
+				di = IntConst(d.SVal())
+			} else if d.Sort.K == SInt {
+				di = d
+			} else {
+				// signed interpretation of the delta
+				neg := BVCmp("bvslt", d, BVConst(0, d.Sort.W))
+				di = Ite(neg, App("-", IntSort, App("bv2nat", IntSort, BVNeg(d))), App("bv2nat", IntSort, d))
+			}
+			sum = App("+", IntSort, sum, Ite(And(a.Guard, lt(a.Clk, w.Clk)), di, IntConst(0)))
+			if a.Thread != w.Thread {
+				add(Not(Eq(a.Clk, w.Clk)))
+			}
+		}
+		add(Implies(w.Guard, Eq(sum, IntConst(0))))
+	}
+}
+
+func (c *ConcCtx) encodeCond(byLoc map[string][]*Event, add func(*Term)) {
+	for loc, evs := range byLoc {
+		if loc[0] != 'c' || loc[1] != ':' {
+			continue
+		}
+		var bcs, wakes []*Event
+		for _, ev := range evs {
+			if ev.Kind == "broadcast" {
+				bcs = append(bcs, ev)
+			} else if ev.Kind == "condwake" {
+				wakes = append(wakes, ev)
+			}
+		}
+		for _, w := range wakes {
+			park := w.Pair // the unlock event that starts the wait
+			var opts []*Term
+			for _, b := range bcs {
+				if b.Thread == w.Thread {
+					continue
+				}
+				opts = append(opts, And(b.Guard, lt(park.Clk, b.Clk), lt(b.Clk, w.Clk)))
+			}
+			add(Implies(w.Guard, Or(opts...)))
+		}
+	}
+}
+
+func (c *ConcCtx) encodeChans(e *Exec, byLoc map[string][]*Event, add func(*Term)) {
+	for loc, evs := range byLoc {
+		if !strings.HasPrefix(loc, "ch:") {
+			continue
+		}
+		var id int
+		fmt.Sscanf(loc, "ch:%d", &id)
+		ci := c.chans[id]
+		var sends, recvs, closes []*Event
+		for _, ev := range evs {
+			switch ev.Kind {
+			case "send":
+				sends = append(sends, ev)
+			case "recv":
+				recvs = append(recvs, ev)
+			case "close":
+				closes = append(closes, ev)
+			}
+		}
+		if ci != nil && (ci.kind == "ticker" || ci.kind == "timer") {
+			// environment-driven: a receive may complete at any time after the ticker/timer was armed and before
+			// it is stopped (late or dropped ticks are allowed); a timer delivers at most once
+			var stops []*Event
+			for _, ev := range evs {
+				if ev.Kind == "stoptimer" {
+					stops = append(stops, ev)
+				}
+			}
+			for i, r := range recvs {
+				conj := []*Term{r.Read}
+				for _, s := range stops {
+					conj = append(conj, Or(Not(s.Guard), lt(r.Clk, s.Clk)))
+				}
+				if ci.kind == "timer" {
+					for j, r2 := range recvs {
+						if j != i {
+							conj = append(conj, Not(r2.Guard))
+						}
+					}
+				}
+				add(Implies(r.Guard, And(conj...)))
+			}
+			continue
+		}
+		if ci != nil && ci.kind == "done" {
+			continue // handled with contexts
+		}
+		// ordinary channel: a receive completes either matched with a distinct send (ok = true) or after a close
+		for ri, r := range recvs {
+			var opts []*Term
+			for _, s := range sends {
+				if s.Thread == r.Thread {
+					continue
+				}
+				m := Var(fmt.Sprintf("match!%d!%d", r.ID, s.ID), BoolSort)
+				conj := []*Term{m, s.Guard, r.Read}
+				if ci != nil && ci.cap > 0 {
+					conj = append(conj, lt(s.Clk, r.Clk))
+				} else {
+					// rendezvous: the send completes when the receive takes it; model as send just before receive
+					conj = append(conj, lt(s.Clk, r.Clk))
+				}
+				if r.Val != nil && s.Write != nil && r.Val.Sort == s.Write.Sort {
+					conj = append(conj, Eq(r.Val, s.Write))
+				}
+				// a send is matched by at most one receive
+				for rj, r2 := range recvs {
+					if rj != ri {
+						conj = append(conj, Not(Var(fmt.Sprintf("match!%d!%d", r2.ID, s.ID), BoolSort)))
+					}
+				}
+				opts = append(opts, And(conj...))
+			}
+			for _, cl := range closes {
+				opts = append(opts, And(cl.Guard, lt(cl.Clk, r.Clk), Not(r.Read)))
+			}
+			add(Implies(r.Guard, Or(opts...)))
+		}
+		// unbuffered / full-buffer sends must be received for the sender to proceed (quiescent executions)
+		if ci == nil || ci.cap == 0 {
+			for _, s := range sends {
+				var opts []*Term
+				for _, r := range recvs {
+					if r.Thread != s.Thread {
+						opts = append(opts, And(r.Guard, Var(fmt.Sprintf("match!%d!%d", r.ID, s.ID), BoolSort)))
+					}
+				}
+				add(Implies(s.Guard, Or(opts...)))
+			}
+		}
+		// at most one close
+		for i := 0; i < len(closes); i++ {
+			for j := i + 1; j < len(closes); j++ {
+				e.addOblig(&Obligation{ID: e.harness + ".no_double_close", Kind: "assert", PC: And(closes[i].Guard, closes[j].Guard), Cond: False, Site: closes[j].Site})
+			}
+		}
+	}
+}
+
+func (c *ConcCtx) encodeCtx(e *Exec, byLoc map[string][]*Event, add func(*Term)) {
+	// cancel events per ctx object
+	cancels := map[int][]*Event{}
+	deadlines := map[int][]*Event{}
+	for loc, evs := range byLoc {
+		if strings.HasPrefix(loc, "ctx:") {
+			var id int
+			fmt.Sscanf(loc, "ctx:%d", &id)
+			for _, ev := range evs {
+				if ev.Kind == "cancel" {
+					cancels[id] = append(cancels[id], ev)
+				} else if ev.Kind == "mkdeadline" {
+					deadlines[id] = append(deadlines[id], ev)
+				}
+			}
+		}
+	}
+	// deadline firing: an environment event per deadline context, at an arbitrary clock after creation
+	dlFire := map[int]*Term{}
+	dlFired := map[int]*Term{}
+	for id, evs := range deadlines {
+		clk := Var(fmt.Sprintf("clk!deadline!%d", id), IntSort)
+		fired := Var(fmt.Sprintf("deadline!fired!%d", id), BoolSort)
+		dlFire[id], dlFired[id] = clk, fired
+		add(Implies(fired, And(evs[0].Guard, lt(evs[0].Clk, clk))))
+	}
+	cancelledBefore := func(chain []int, clk *Term) *Term {
+		var opts []*Term
+		for _, id := range chain {
+			for _, cv := range cancels[id] {
+				opts = append(opts, And(cv.Guard, lt(cv.Clk, clk)))
+			}
+			if f, ok := dlFired[id]; ok {
+				opts = append(opts, And(f, lt(dlFire[id], clk)))
+			}
+		}
+		return Or(opts...)
+	}
+	for loc, evs := range byLoc {
+		if strings.HasPrefix(loc, "ctxs:") {
+			var chain []int
+			for _, p := range strings.Split(loc[5:], ",") {
+				var id int
+				fmt.Sscan(p, &id)
+				chain = append(chain, id)
+			}
+			for _, ev := range evs {
+				add(Implies(ev.Guard, Eq(ev.Read, cancelledBefore(chain, ev.Clk))))
+			}
+		}
+	}
+	// receives on Done() channels: complete only after a cancellation of the chain
+	for loc, evs := range byLoc {
+		if !strings.HasPrefix(loc, "ch:") {
+			continue
+		}
+		var id int
+		fmt.Sscanf(loc, "ch:%d", &id)
+		ci := c.chans[id]
+		if ci == nil || ci.kind != "done" {
+			continue
+		}
+		for _, ev := range evs {
+			if ev.Kind != "recv" {
+				continue
+			}
+			chain := c.doneChains[id]
+			add(Implies(ev.Guard, And(Not(ev.Read), cancelledBefore(chain, ev.Clk))))
+		}
+	}
+}
+
+// placeholder variable for a named ghost event (resolved when the encoding is built)
+func (c *ConcCtx) placeholder(kind, key string, s Sort) *Term {
+	name := kind + "@" + key
+	if v, ok := c.place[name]; ok {
+		return v
+	}
+	v := Var(name, s)
+	c.place[name] = v
+	return v
+}
+
+// writeTrace re-solves the violated query asking for the values of every event's guard, clock and data, and
+// writes the counterexample schedule (events in clock order) to <dir>/schedule.txt.
+func (c *ConcCtx) writeTrace(e *Exec, dir string, asserts []*Term, timeoutS int) {
+	var extra []*Term
+	for _, ev := range c.events {
+		extra = append(extra, ev.Guard, ev.Clk)
+		if ev.Read != nil {
+			extra = append(extra, ev.Read)
+		}
+		if ev.Write != nil {
+			extra = append(extra, ev.Write)
+		}
+	}
+	script := Script(append(append([]*Term(nil), asserts...), keepAlive(extra)...), true, "")
+	var sb strings.Builder
+	sb.WriteString("(get-value (")
+	seen := map[int]bool{}
+	for _, t := range extra {
+		if !seen[t.ID] && !t.IsConst() {
+			seen[t.ID] = true
+			sb.WriteString(t.ref() + " ")
+		}
+	}
+	sb.WriteString("))\n")
+	fr := RunScript("z3", script+sb.String(), nil, time.Duration(timeoutS)*time.Second, "")
+	if fr.Res != "sat" {
+		fr = RunScript("z3new", script+sb.String(), nil, time.Duration(timeoutS)*time.Second, "")
+	}
+	if fr.Res != "sat" {
+		os.WriteFile(filepath.Join(dir, "schedule.txt"), []byte("could not re-derive the schedule ("+fr.Res+")\n"), 0o644)
+		return
+	}
+	if os.Getenv("VERIF_DEBUG") != "" {
+		os.WriteFile(filepath.Join(dir, "trace_query.smt2"), []byte(script+sb.String()), 0o644)
+		os.WriteFile(filepath.Join(dir, "trace_out.txt"), []byte(fr.Out), 0o644)
+	}
+	vals := parseGetValueRaw(fr.Out)
+	val := func(t *Term) string {
+		if t.IsConst() {
+			return t.ref()
+		}
+		return vals[t.ref()]
+	}
+	type row struct {
+		clk int64
+		txt string
+	}
+	var rows []row
+	for _, ev := range c.events {
+		if val(ev.Guard) != "true" {
+			continue
+		}
+		ck, _ := modelInt(val(ev.Clk))
+		d := ""
+		if ev.Read != nil {
+			d += " read=" + short(val(ev.Read))
+		}
+		if ev.Write != nil {
+			d += " write=" + short(val(ev.Write))
+		}
+		if ev.Name != "" {
+			d += " name=" + ev.Name
+		}
+		rows = append(rows, row{ck, fmt.Sprintf("%6d  %-22s %-10s %-14s%s  @%s", ck, c.threads[ev.Thread].name, ev.Kind, ev.Loc, d, ev.Site)})
+	}
+	sort.Slice(rows, func(i, j int) bool { return rows[i].clk < rows[j].clk })
+	var out strings.Builder
+	out.WriteString("counterexample schedule (executed events in clock order; clock, thread, kind, location, data, source)\n")
+	for _, r := range rows {
+		out.WriteString(r.txt + "\n")
+	}
+	os.WriteFile(filepath.Join(dir, "schedule.txt"), []byte(out.String()), 0o644)
+}
+
+func short(v string) string {
+	if u, ok := modelBV(v); ok {
+		return fmt.Sprint(int64(u))
+	}
+	return v
+}
+
+// keepAlive makes the terms part of the script (so that their define-funs are emitted) without constraining them
+func keepAlive(ts []*Term) []*Term {
+	var out []*Term
+	for _, t := range ts {
+		if t.IsConst() {
+			continue
+		}
+		out = append(out, mk("keep", BoolSort, 0, 0, "", t))
+	}
+	return out
+}
